@@ -39,3 +39,15 @@ package fsnotify
 //@ func (e Event) String() (s string)
 //@   ensures e.renamedFrom == "" ==> s == sprintf("%-13s %q", opString(e.Op), e.Name)                          [C16] "shows the operation text and the quoted name"
 //@   ensures e.renamedFrom != "" ==> s == sprintf("%-13s %q ← %q", opString(e.Op), e.Name, e.renamedFrom)      [C16 C11] "for the new name of a rename, also the quoted old name, in that order"
+
+//@ func NewWatcher() (res *Watcher, err error)
+//@   requires nolocks()
+//@   ensures err != nil ==> res == nil && fds == old(fds) && goroutines == old(goroutines)        [C13] "a failed NewWatcher leaks nothing"
+//@   ensures err == nil ==> res != nil && chCap(res.Events) == defaultBufferSize && chCap(res.Errors) == 0 &&
+//@             fds == old(fds) + 1 && goroutines == old(goroutines) + 1                             [C14 C13] "NewWatcher's Events capacity is the platform default"
+
+//@ func NewBufferedWatcher(sz uint) (res *Watcher, err error)
+//@   requires nolocks()
+//@   ensures err != nil ==> res == nil && fds == old(fds) && goroutines == old(goroutines)        [C13]
+//@   ensures err == nil ==> res != nil && chCap(res.Events) == sz && chCap(res.Errors) == 0 &&
+//@             fds == old(fds) + 1 && goroutines == old(goroutines) + 1                             [C14 C13] "the Events capacity is exactly the size requested"
